@@ -182,6 +182,12 @@ fn item<C: Suite>(ctx: &mut Ctx, entry: &str, n: u16, t: u16) {
         let msg = vec![i as u8; 5 + i];
         let sig = k.sign(&mut frng, &msg);
         items.push((frost_core::VerifyingKey::<C>::from(&k), sig, msg));
+        // every second key signs a second message right away: consecutive items under one key still need a draw each
+        if i % 2 == 1 {
+            let msg = vec![0xa5; 3 + i];
+            let sig = k.sign(&mut frng, &msg);
+            items.push((frost_core::VerifyingKey::<C>::from(&k), sig, msg));
+        }
     }
     let fix = Fixed { key, ids: grp.ids.clone(), grp, comms, items };
     let d = |what: &str, extra: serde_json::Value| json!({"what": what, "entry": entry, "n": n, "t": t, "extra": extra});
@@ -247,6 +253,27 @@ fn item<C: Suite>(ctx: &mut Ctx, entry: &str, n: u16, t: u16) {
             }
             if o1.all != vec![1u8] {
                 ctx.viol("honest-call-failed", entry, d("valid batch rejected", json!({})));
+            }
+            // every item gets its own blinder whatever key it is under: a batch of as many items with pairwise distinct keys
+            // consumes exactly as much of the source (the fixture above repeats every second key)
+            {
+                let mut kr = ctx.rng("distinct-keys");
+                let mut v = batch::Verifier::<C>::new();
+                for i in 0..fix.items.len() {
+                    let k = SigningKey::<C>::new(&mut kr);
+                    let msg = vec![i as u8; 4 + i];
+                    let sig = k.sign(&mut kr, &msg);
+                    if let Ok(it) = batch::Item::<C>::new(frost_core::VerifyingKey::<C>::from(&k), sig, &msg) {
+                        v.queue(it);
+                    }
+                }
+                let mut r2 = ctx.rng(&format!("stream-{}", 0));
+                let ok = v.verify(&mut r2).is_ok();
+                if !ok {
+                    ctx.viol("honest-call-failed", entry, d("valid batch (distinct keys) rejected", json!({})));
+                } else if r2.total() != r1.total() {
+                    ctx.viol("batch-blinders", "draws-depend-on-keys", d("a batch with repeated keys consumes another amount of randomness than a batch of the same size with distinct keys", json!({"repeated_keys_bytes": r1.total(), "distinct_keys_bytes": r2.total(), "items": fix.items.len()})));
+                }
             }
             ctx.note("batch_draws", json!({"items": fix.items.len(), "draws": r1.n_calls(), "bytes": r1.total()}));
             ctx.count("batch_draw_checks");
